@@ -276,7 +276,7 @@ UNIT = Unit(
                ("heights-fit", "hts(old(self).lines@, old(term)@.w, old(self).lines.len() as int) + old(bar_count).0 <= 0x7FFF_FFFF"),
            ],
            ensures=[
-               ("frame-lines", "final(self).lines@ == old(self).lines@ && final(self).move_cursor == old(self).move_cursor"),
+               ("frame-lines", "final(self).lines@ == old(self).lines@ && final(self).move_cursor == old(self).move_cursor && final(self).alignment == old(self).alignment"),
                ("C18-error-keeps-count", "res.is_err() ==> *final(bar_count) == *old(bar_count)", ["C18"]),
                ("geometry", "final(term)@.same_geom(old(term)@) && final(term)@.wf()"),
                ("one-flush", "res.is_ok() ==> final(term)@.flushed == old(term)@.flushed + 1"),
@@ -530,3 +530,26 @@ for _it in UNIT.items:
         for _c in _it.ensures:
             if _c.props is None and _c.label in _TAGS:
                 _c.props = _TAGS[_c.label]
+
+# ---- the contract of draw_to_term as spec predicates (same clause text), for the units that use
+# draw_to_term as a stubbed callee
+DTT = [it for it in UNIT.items if getattr(it, "name", "") == "draw_to_term"][0]
+
+
+def _subst(e):
+    for a, b in [(r"\*old\(self\)", "s0"), (r"\*final\(self\)", "s1"), (r"old\(self\)", "s0"), (r"final\(self\)", "s1"),
+                 (r"old\(term\)@", "t0"), (r"final\(term\)@", "t1"),
+                 (r"\*old\(bar_count\)", "n0"), (r"\*final\(bar_count\)", "n1"), (r"old\(bar_count\)", "n0"), (r"final\(bar_count\)", "n1")]:
+        e = re.sub(a, b, e)
+    return e
+
+
+DTT_PRED = ("spec fn dtt_pre(s0: DrawState, t0: GTerm, n0: VisualLines) -> bool {\n"
+            + "".join("    &&& (%s)\n" % _subst(c.expr) for c in DTT.requires) + "}\n"
+            + "spec fn dtt_post(s0: DrawState, s1: DrawState, t0: GTerm, t1: GTerm, n0: VisualLines, n1: VisualLines, res: Result<(), IoError>) -> bool {\n"
+            + "".join("    &&& (%s)\n" % _subst(c.expr) for c in DTT.ensures) + "}\n")
+DTT_STUB = dict(file="src/draw_target.rs", container="DrawState", name="draw_to_term", ret="res", stub=True,
+                sig_rewrites=DTT.sig_rewrites,
+                requires=[("pre", "dtt_pre(*old(self), old(term)@, *old(bar_count))")],
+                ensures=[("post", "dtt_post(*old(self), *final(self), old(term)@, final(term)@, *old(bar_count), *final(bar_count), res)"),
+                         ("ops", "true")])
